@@ -388,6 +388,44 @@ def probe_crafted_counts():
     return n, w
 
 
-DIRECTED = dict(precision=probe_precision, crafted_counts=probe_crafted_counts)
+def probe_history():
+    """signatures must not depend on which other forms had their signature computed before (state cached on shared objects):
+    a cross-mesh form must not collide with a single-mesh form, and a form must get the signature of a freshly built equal form"""
+    import ufl
+    from utils import LagrangeElement
+    tri = ufl.triangle
+    n, w = 0, None
+
+    def world():
+        m1 = ufl.Mesh(LagrangeElement(tri, 1, (2,)), ufl_id=11)
+        m2 = ufl.Mesh(LagrangeElement(tri, 1, (2,)), ufl_id=12)
+        P = LagrangeElement(tri, 1, ())
+        V1, V2 = ufl.FunctionSpace(m1, P), ufl.FunctionSpace(m2, P)
+        f, g = ufl.Coefficient(V2, count=3), ufl.Coefficient(V1, count=3)
+        v = ufl.TestFunction(V1)
+        return m1, m2, f, g, v
+    # fresh objects: the reference signatures
+    m1, m2, f, g, v = world()
+    ref_cross, ref_single = c11lib.sigof(f * v * ufl.dx(m1)), c11lib.sigof(g * v * ufl.dx(m1))
+    for warm in ("space-first-on-own-mesh", "geometry-first", "other-order"):
+        m1, m2, f, g, v = world()
+        if warm == "space-first-on-own-mesh":
+            c11lib.sigof(f * f * ufl.dx(m2))            # here m2 is domain 0
+        elif warm == "geometry-first":
+            c11lib.sigof(ufl.CellVolume(m2) * f * ufl.dx(m2) + g * ufl.dx(m1))
+        else:
+            c11lib.sigof(g * v * ufl.dx(m1)); c11lib.sigof(f * ufl.dx(m2))
+        cross, single = c11lib.sigof(f * v * ufl.dx(m1)), c11lib.sigof(g * v * ufl.dx(m1))
+        n += 3
+        if w is None and cross == single:
+            w = Witness("after %s, the cross-mesh form f*v*dx(m1) (f on m2) and the single-mesh form g*v*dx(m1) have one signature" % warm,
+                        "C11:unexplained:collision:history:" + warm, dict(kind="directed", probe="history", warm=warm))
+        if w is None and (cross != ref_cross or single != ref_single):
+            w = Witness("after %s, a form has another signature than the equal form built from fresh objects" % warm,
+                        "C11:unexplained:unequal:history:" + warm, dict(kind="directed", probe="history", warm=warm))
+    return n, w
+
+
+DIRECTED = dict(precision=probe_precision, crafted_counts=probe_crafted_counts, history=probe_history)
 
 PROP = C11()
